@@ -302,6 +302,14 @@ func C09(c *Ctx) {
 			if fn == nil {
 				return false
 			}
+			// delegating to the function the rollback uses is trivially 'the same way'
+			if gic != nil && fn != gic {
+				for _, call := range core.Calls(fn) {
+					if core.StaticCallee(call) == gic {
+						return true
+					}
+				}
+			}
 			hasCounter, hasLen := false, false
 			for _, b := range fn.Blocks {
 				for _, in := range b.Instrs {
